@@ -9,7 +9,7 @@ func init() {
 	register(&propDef{
 		id: "C09", title: "Stopping an actor stops its whole subtree, children first",
 		technique: "CFG ordering through the fail-fast chains of doStop, fan-out/join rule on freeChildren (every errgroup.Go joined by Wait before success), lockset on the actor tree, paired index-update rule, who-may-call on node removal",
-		explanation: "Decides: (0) a local Shutdown returns success only after taking the stop lock (it waits for a stop in flight instead of returning early); (1) in doStop watchees are released, then children freed, then PostStop runs, then watchers are notified; PostStop is reached only if freeing the children succeeded; (2) freeChildren starts one stop task per element of tree.children(pid), each task shuts the child down when it is running or suspended, and every path to a successful return joins all tasks with Wait first (children complete before the parent's PostStop); a join error is returned; (3) every read/write of the tree indexes (pids, names, rootNode) and of every node's relation maps happens under tree.mu (write lock for mutations); *Locked helpers are only called with the lock held; (4) index pairing: every insertion into pids is paired with an insertion into names and one counter increment in the same block, every removal from pids with the name removal and one decrement; removal proceeds children before parents (post-order); (5) nodes are deleted only from the listed sites (death watch on Terminated, stop directive after a successful Shutdown, system shutdown, spawn rollback).",
+		explanation: "Decides: (0) a local Shutdown returns success only after taking the stop lock (it waits for a stop in flight instead of returning early); (1) in doStop watchees are released, then children freed, then PostStop runs, then watchers are notified; PostStop is reached only if freeing the children succeeded; (2) freeChildren starts one stop task per element of tree.children(pid), each task shuts the child down when it is running or suspended, and every path to a successful return joins all tasks with Wait first (children complete before the parent's PostStop); a join error is returned; (3) every read/write of the tree indexes (pids, names, rootNode) and of every node's relation maps happens under tree.mu (write lock for mutations); *Locked helpers are only called with the lock held; (4) index pairing: every insertion into pids is paired with an insertion into names and one counter increment in the same block, every removal from pids with the name removal and one decrement; removal proceeds children before parents (post-order); (5) nodes are deleted only from the listed sites (death watch on Terminated, stop directive after a successful Shutdown, system shutdown, spawn rollback). Added after seed C09b: in restartChild, after the backoff sleep the child is un-watched / restarted only over the edge on which the supervising parent was found still running (a guard evaluated before the sleep does not count).",
 		assumptions: []string{"concurrent overlapping stops/spawns of the same subtree", "'no actor of the subtree resolvable when Stop returns' depends on the asynchronous death watch removing nodes"},
 		minObl:     47,
 		run:        runC09,
@@ -32,6 +32,57 @@ func runC09(c *Ctx) {
 		}
 		w := f.MustPrecede(lock, nil, retNil)
 		c.Check(w == nil && len(f.Find(retNil)) >= 1 && len(f.Find(lock)) == 1, "success-only-under-stop-lock", "a local Shutdown returns success only after taking the stop lock (it waits for a stop in flight instead of returning early)", c.P.Pos(sh.Decl.Pos()), f.describe(w))
+	})
+
+	c.Rule("delayed-restart", func() {
+		// A backoff delay can outlive the supervising parent (its stop has, by then, shut the suspended child down and
+		// removed both from the tree): after the sleep the parent's liveness is examined again before the child is
+		// touched. A guard evaluated before the sleep says nothing about the moment the restart runs.
+		rc := c.Func("actor", "PID.restartChild")
+		f := c.NewFlow(rc)
+		info := f.Info
+		sleep := func(n ast.Node) bool {
+			call, ok := n.(*ast.CallExpr)
+			if !ok {
+				return false
+			}
+			cal := callee(info, call)
+			if cal == nil || cal.Pkg() == nil {
+				return false
+			}
+			return (relPkg(cal.Pkg().Path()) == "internal/pause" && cal.Name() == "For") || qualifiedName(cal) == "time.Sleep"
+		}
+		sleeps := f.Find(sleep)
+		restartObj := c.FuncObj("actor", "PID.Restart")
+		touch := func(n ast.Node) bool {
+			switch x := n.(type) {
+			case *ast.CallExpr:
+				if cal := callee(info, x); cal != nil && (cal == restartObj || cal.Name() == "UnWatch") {
+					return true
+				}
+			case *ast.SelectorExpr:
+				// spid.Restart passed as a method value (retrier.RunContext(ctx, spid.Restart))
+				if sel, ok := info.Selections[x]; ok && sel.Obj() == types.Object(restartObj) {
+					return true
+				}
+			}
+			return false
+		}
+		recvParam := rc.Decl.Recv.List[0].Names[0]
+		alive := f.BoolEdges(func(e ast.Expr) bool {
+			call, ok := e.(*ast.CallExpr)
+			if !ok {
+				return false
+			}
+			cal := callee(info, call)
+			return cal != nil && cal.Name() == "IsRunning" && objOf(info, recvExpr(call)) == info.ObjectOf(recvParam)
+		}, true)
+		if len(sleeps) == 0 || len(f.Find(touch)) == 0 {
+			c.Undecided("recheck-after-sleep", "the supervising parent's liveness is re-examined after the backoff sleep", c.P.Pos(rc.Decl.Pos()), "sleep or restart site not found")
+			return
+		}
+		w := f.search(searchSpec{starts: sleeps, avoidEdges: alive, target: touch})
+		c.Check(w == nil && len(alive) > 0, "recheck-after-sleep", "after the backoff sleep the child is restarted only over the edge on which the supervising parent was found still running", c.P.Pos(rc.Decl.Pos()), f.describe(w))
 	})
 
 	c.Rule("dostop-order", func() {
